@@ -44,7 +44,7 @@ structure Group where
   pos : Rat
   size : Rat
   rows : List Track
-  deriving Repr
+  deriving Repr, DecidableEq
 
 structure Grid where
   rtl : Bool
